@@ -113,6 +113,55 @@ func runC15(r *Report) {
 		}
 	}
 	r.Sentinel("R1", len(calls), 3)
+	// … and the flag is given up only by whoever holds it: every unlock (called or deferred) sits on the edge on which
+	// an acquisition succeeded. `ok := tryLock(); defer unlock(); if !ok { return }` releases the flag of the announce
+	// that is in flight — the state reads idle while it runs, and its own unlock then panics.
+	{
+		ucalls, _ := p.callSitesOf(unlock)
+		nU := 0
+		for _, cs := range ucalls {
+			in, okI := cs.(ssa.Instruction)
+			if !okI {
+				continue
+			}
+			f := cs.Parent()
+			if f.Parent() != nil {
+				// a deferred closure: judged at the defer that registers it
+				continue
+			}
+			nU++
+			r.Fn(f)
+			held := p.factHolds(in, func(g Guard) bool {
+				gc, okc := g.Cond.(*ssa.Call)
+				return okc && acquirers[gc.Call.StaticCallee()] && g.Pol
+			}, 0)
+			r.Check(held, "R1", fname(f)+"/unlock-only-when-held", cs.Pos(), "the unlock is reached (or registered) only on the edge on which the flag was taken",
+				"unlock is called or deferred on a path on which tryLock may have failed: an announce that was refused because another one is in flight releases that one's flag — GetState reports the tracker idle while it is being contacted, a second contact can start, and the rightful owner's unlock panics (\"unlocking unlocked torrent\") in its goroutine")
+		}
+		// defers of closures that unlock
+		for _, f := range p.SrcFuncs() {
+			if relPkg(f) != "tracker" {
+				continue
+			}
+			allInstrs(f, func(in ssa.Instruction) {
+				d, okD := in.(*ssa.Defer)
+				if !okD {
+					return
+				}
+				df := deferredFunc(d)
+				if df == nil || df == unlock || anyInstr(df, func(i2 ssa.Instruction) bool { c2, okc := i2.(*ssa.Call); return okc && c2.Call.StaticCallee() == unlock }) == nil {
+					return
+				}
+				nU++
+				held := p.factHolds(in, func(g Guard) bool {
+					gc, okc := g.Cond.(*ssa.Call)
+					return okc && acquirers[gc.Call.StaticCallee()] && g.Pol
+				}, 0)
+				r.Check(held, "R1", fname(f)+"/unlock-only-when-held", d.Pos(), "the deferred unlock is registered only on the edge on which the flag was taken", "a closure that unlocks is deferred on a path on which tryLock may have failed")
+			})
+		}
+		r.Sentinel("R1.unlocks", nU, 3)
+	}
 	// implementations of Tracker.Announce (enumerated from the interface) that reach the network take the lock
 	iface := p.Named("tracker", "Tracker")
 	var impls []*ssa.Function
@@ -341,6 +390,8 @@ func runC15(r *Report) {
 	}
 	c15R3(r)
 	c15R4(r)
+	// a reply is decoded from the bytes that were read, not from what a short read left in the buffer
+	readCountsUsed(r, "R4", map[string]bool{"tracker": true}, 1)
 	c15R5(r)
 	c15Bounded(r, "R1")
 	atomicWrites(r, "R1", objNamed("tracker", "locked"), 1)
